@@ -102,6 +102,64 @@ RInfoVecs ==
   \o [k \in 1..NRand |-> LET s == RInfoShape(200 + 11 * k) IN
         Session(<< "ReadRouterInfo" >>, RInfoEnc(s[1], s[2][1], s[2][2], s[3], s[4], 0, s[5], k), << >>, "rinfo-rnd")]
 
+(******************************* router info capabilities (extension family X01 + C02 accessor) ***********)
+KCapsG == << 99, 97, 112, 115 >>   KVerG == << 114, 111, 117, 116, 101, 114, 46, 118, 101, 114, 115, 105, 111, 110 >>   KHostG == << 104, 111, 115, 116 >>   KPortG == << 112, 111, 114, 116 >>
+CapsVals == << << >>,
+              << 102 >>,
+              << 102, 82 >>,
+              << 76, 85 >>,
+              << 88, 102, 82 >>,
+              << 80, 102, 82, 68 >>,
+              << 79, 102, 82, 69 >>,
+              << 78, 82, 71 >>,
+              << 75, 85 >>,
+              << 77, 82 >>,
+              << 85, 82 >>,
+              << 76, 88 >>,
+              << 88, 76 >>,
+              << 102, 82, 68, 69, 71 >>,
+              << 114 >>,
+              << 70 >>,
+              Fill(68, 97), Fill(69, 97), Fill(71, 97), Fill(102, 97), Fill(81, 97) \o << 82 >>, Fill(84, 97) \o << 82 >>, Fill(75, 97), Fill(88, 97), Fill(255, 102) >>
+VerVals == << << 48, 46, 57, 46, 54, 52 >>,
+             << 48, 46, 57, 46, 53, 56 >>,
+             << 48, 46, 57, 46, 53, 55 >>,
+             << 48, 46, 57, 46, 57, 57 >>,
+             << 48, 46, 57, 46, 49, 48, 48 >>,
+             << 48, 46, 57 >>,
+             << 48, 46, 57, 46, 54, 52, 46, 49 >>,
+             << 49, 46, 57, 46, 54, 52 >>,
+             << 48, 46, 56, 46, 54, 52 >>,
+             << >>,
+             << 48, 46, 57, 46, 120 >>,
+             << 48, 46, 48, 57, 46, 48, 54, 52 >>,
+             << 48, 46, 57, 46 >>,
+             << 46, 46 >>,
+             << 48, 46, 57, 46, 54, 32, 52 >>,
+             << 48, 46, 49, 48, 46, 54, 52 >> >>
+Ver064 == << 48, 46, 57, 46, 54, 52 >>
+CapAddrs == << EncRouterAddress(10, Zeros(8), << 78, 84, 67, 80, 50 >>, << << KHostG, << 49, 46, 50, 46, 51, 46, 52 >> >>, << KPortG, << 56, 48, 56, 48 >> >> >>),
+              EncRouterAddress(10, Zeros(8), << 83, 83, 85, 50 >>, << << KHostG, << 58, 58, 49 >> >>, << KPortG, << 56, 48, 56, 48 >> >> >>),
+              EncRouterAddress(10, Zeros(8), << 78, 84, 67, 80 >>, << << KHostG, << 50, 48, 48, 49, 58, 100, 98, 56, 58, 58, 49 >> >>, << KPortG, << 56, 48, 56, 48 >> >> >>),
+              EncRouterAddress(10, Zeros(8), << 110, 116, 99, 112, 50 >>, << >>),
+              EncRouterAddress(10, Zeros(8), << 120, 78, 116, 67, 112, 50, 121 >>, << << KHostG, << 101, 120, 97, 109, 112, 108, 101, 46, 99, 111, 109 >> >>, << KPortG, << 56, 48, 56, 48 >> >> >>),
+              EncRouterAddress(10, Zeros(8), << 83, 83, 85 >>, << << KHostG, << 49, 48, 46, 48, 46, 48, 46, 49 >> >>, << KPortG, << 56, 48, 56, 48 >> >> >>),
+              EncRouterAddress(10, Zeros(8), << 83, 115, 85, 50 >>, << << KHostG, << 49, 57, 50, 46, 49, 54, 56, 46, 49, 46, 49 >> >>, << KPortG, << 56, 48, 56, 48 >> >> >>),
+              EncRouterAddress(10, Zeros(8), << >>, << >>),
+              EncRouterAddress(10, Zeros(8), << 78, 84, 67, 80, 50, 83, 83, 85, 50 >>, << << KHostG, << 102, 101, 56, 48, 58, 58, 49 >> >>, << KPortG, << 56, 48, 56, 48 >> >> >>) >>
+AddrSetsX == << << >>, << CapAddrs[1] >>, << CapAddrs[2] >>, << CapAddrs[3] >>, << CapAddrs[4] >>, << CapAddrs[5] >>, << CapAddrs[6] >>, << CapAddrs[7] >>, << CapAddrs[8] >>, << CapAddrs[9] >>,
+               << CapAddrs[1], CapAddrs[2] >>, << CapAddrs[3], CapAddrs[6] >>, << CapAddrs[8], CapAddrs[4], CapAddrs[7] >> >>
+RICapsEnc(opts, addrs, salt) == EncRouterInfo(EncIdentity("key", 7, 4, salt), 7, D8[3], addrs, 0, opts, salt + 50)
+RICapsVecs ==
+  [k \in 1..Len(CapsVals) |-> Session(<< "ReadRouterInfo" >>, RICapsEnc(<< << KCapsG, CapsVals[k] >>, << KVerG, Ver064 >> >>, AddrSetsX[2], k), << >>, "ricaps-caps")]
+  \o [k \in 1..Len(VerVals) |-> Session(<< "ReadRouterInfo" >>, RICapsEnc(<< << KCapsG, CapsVals[3] >>, << KVerG, VerVals[k] >> >>, AddrSetsX[3], 30 + k), << >>, "ricaps-version")]
+  \o [k \in 1..Len(AddrSetsX) |-> Session(<< "ReadRouterInfo" >>, RICapsEnc(<< << KCapsG, CapsVals[5] >>, << KVerG, Ver064 >> >>, AddrSetsX[k], 60 + k), << >>, "ricaps-addrs")]
+  \o << Session(<< "ReadRouterInfo" >>, RICapsEnc(<< >>, AddrSetsX[2], 90), << >>, "ricaps-absent"),
+        Session(<< "ReadRouterInfo" >>, RICapsEnc(<< << KVerG, Ver064 >> >>, AddrSetsX[2], 91), << >>, "ricaps-nocaps"),
+        Session(<< "ReadRouterInfo" >>, RICapsEnc(<< << KCapsG, CapsVals[3] >> >>, AddrSetsX[2], 92), << >>, "ricaps-noversion") >>
+  \o [k \in 1..NRand |-> Session(<< "ReadRouterInfo" >>,
+         RICapsEnc(<< << KCapsG, Pick(CapsVals, 300 + k) >>, << KVerG, Pick(VerVals, 400 + k) >> >>, Pick(AddrSetsX, 500 + k), 100 + k), << >>, "ricaps-rnd")]
+
 (******************************* lease sets *********************************)
 DestPairs == << << 7, 4 >>, << 0, 0 >>, << 1, 0 >>, << 2, 0 >>, << 7, 0 >>, << 11, 4 >>, << 1, 4 >>, << 8, 4 >>, << 7, 5 >>, << 7, 6 >>, << 7, 7 >>, << 8, 5 >>, << 3, 4 >>, << 4, 0 >> >>
 PermittedDestPairs == SubSeq(DestPairs, 1, 7)
@@ -199,7 +257,7 @@ PrimVecs ==
 
 Vecs == CASE Fam = "prims" -> PrimVecs [] Fam = "lease" -> LeaseVecs \o SessionVecs [] Fam = "sig" -> SigVecs [] Fam = "offsig" -> OffVecs
           [] Fam = "raddr" -> RAddrVecs [] Fam = "rinfo" -> RInfoVecs [] Fam = "ls" -> LSVecs [] Fam = "ls2" -> LS2Vecs
-          [] Fam = "meta" -> MetaVecs [] Fam = "els" -> ELSVecs
+          [] Fam = "meta" -> MetaVecs [] Fam = "els" -> ELSVecs [] Fam = "ricaps" -> RICapsVecs
           [] OTHER -> LeaseVecs \o SessionVecs \o SigVecs \o OffVecs \o RAddrVecs \o RInfoVecs \o LSVecs \o LS2Vecs \o MetaVecs \o ELSVecs
 
 VARIABLE done
